@@ -65,6 +65,15 @@ def main():
                  "tanh": table("tanh"), "sqrt": table("sqrt")}
             g = np.asarray(jax.grad(lambda a: tr({"p": a}, beta=beta)["p"].sum())(x))
             o["grad_finite"] = bool(np.isfinite(g).all())
+            # the same with beta passed as a concrete jax array and as a jit-traced value (a beta schedule inside lax.cond / jit)
+            ba = jnp.asarray(beta, dtype=jnp.float64)
+            ya = np.asarray(tr({"p": x}, beta=ba)["p"])
+            ga = np.asarray(jax.grad(lambda a: tr({"p": a}, beta=ba)["p"].sum())(x))
+            yt, gt = jax.jit(lambda a, b: jax.value_and_grad(lambda a_: tr({"p": a_}, beta=b)["p"].sum())(a))(x, ba)
+            o["array_beta"] = {"grad_finite": bool(np.isfinite(ga).all()), "traced_grad_finite": bool(np.isfinite(np.asarray(gt)).all()),
+                               "value_diff": float(np.nanmax(np.abs(ya - y))) if np.isfinite(ya).all() else float("inf"),
+                               "grad_diff": float(np.nanmax(np.abs(ga - g))) if np.isfinite(ga).all() and np.isfinite(g).all() else float("inf"),
+                               "traced_grad_diff": float(np.nanmax(np.abs(np.asarray(gt) - g))) if np.isfinite(np.asarray(gt)).all() and np.isfinite(g).all() else float("inf")}
             if c["kind"] == "smooth":
                 o["plain"] = fl(np.asarray(plain({"p": x}, beta=beta)["p"]))
                 va = shape.index(1)
